@@ -92,6 +92,8 @@ def common_spec(rng, tier, controls=True, limits=False):
         o['required_pressure'] = o['minimum_pressure'] + rng.choice([10.0, 15.0, 25.0])
         o['pressure_exponent'] = 0.5
     o['extra_hydraulic'] = {'accuracy': 1e-6, 'trials': 200}
+    if side.random() < 0.12 and spec['patterns']:
+        o['extra_hydraulic']['pattern'] = sorted(spec['patterns'])[0]      # default pattern of demands that name none
     if isinstance(o['report_timestep'], int) and o['report_timestep'] < o['hydraulic_timestep']:
         # both engines shorten the hydraulic step to the report step; EPANET then also caps the rule step at it, WNTR does not
         o['rule_timestep'] = min(o['rule_timestep'], o['report_timestep'])
@@ -919,7 +921,8 @@ def emit_inp(spec, units):
     out += [' DURATION %s' % hms(o['duration']), ' HYDRAULIC TIMESTEP %s' % hms(o['hydraulic_timestep']), ' QUALITY TIMESTEP 0:05:00',
             ' RULE TIMESTEP %s' % hms(o['rule_timestep']), ' PATTERN TIMESTEP %s' % hms(o['pattern_timestep']), ' PATTERN START %s' % hms(o['pattern_start']),
             ' REPORT TIMESTEP %s' % hms(o['report_timestep']), ' REPORT START 0:00:00', ' START CLOCKTIME %s' % hms(o['start_clocktime']), ' STATISTIC NONE']
-    out += ['', '[OPTIONS]', ' UNITS %s' % units, ' HEADLOSS H-W', ' SPECIFIC GRAVITY 1', ' VISCOSITY 1', ' TRIALS 200', ' ACCURACY 0.000001', ' UNBALANCED STOP',
+    dflt = [' PATTERN %s' % o['extra_hydraulic']['pattern']] if o.get('extra_hydraulic', {}).get('pattern') else []
+    out += ['', '[OPTIONS]'] + dflt + [' UNITS %s' % units, ' HEADLOSS H-W', ' SPECIFIC GRAVITY 1', ' VISCOSITY 1', ' TRIALS 200', ' ACCURACY 0.000001', ' UNBALANCED STOP',
             ' DEMAND MULTIPLIER %.10g' % o['demand_multiplier'], ' EMITTER EXPONENT 0.5', ' QUALITY NONE', ' DIFFUSIVITY 1', ' TOLERANCE 0.01']
     if o['demand_model'] == 'PDD':
         out += [' DEMAND MODEL PDA', ' MINIMUM PRESSURE %.10g' % (o['minimum_pressure'] / Pp), ' REQUIRED PRESSURE %.10g' % (o['required_pressure'] / Pp),
